@@ -59,7 +59,7 @@ def _zones(ck, tier, seed, tmp, exe):
             tot["ops"] += h.summary["extra"]["ops"]
             tot["model_drift"] += h.summary["drift"]
     ck.traces += tot["cases"]
-    ck.extra["impl"]["zones_replay"] = tot
+    ck.extra.setdefault("impl", {})["zones_replay"] = tot
     return True
 
 
@@ -121,7 +121,7 @@ def _validate(ck, tmp, exe, name, cases, rng, demo):
     vlib.absorb(ck, h)
     if h.summary:
         ck.traces += h.summary["extra"]["segments"]
-        ck.extra["impl"]["collide/" + name] = dict(h.summary["extra"], model_drift=h.summary["drift"])
+        ck.extra.setdefault("impl", {})["collide/" + name] = dict(h.summary["extra"], model_drift=h.summary["drift"])
     if h.fault or not h.summary:
         return
     lines = open(trace).read().splitlines()
@@ -147,7 +147,7 @@ def _validate(ck, tmp, exe, name, cases, rng, demo):
     m = [l for l in rv.out.splitlines() if l.startswith('<<"counters"')]
     if m:
         v = [int(x) for x in m[-1].strip("<>").split(",")[1:]]
-        ck.extra["impl"]["collide/" + name].update({"tlc_fix_events": v[0], "tlc_resolved_steps_obliged": v[1], "tlc_neighbour_pairs_in_reach": v[2],
+        ck.extra.setdefault("impl", {})["collide/" + name].update({"tlc_fix_events": v[0], "tlc_resolved_steps_obliged": v[1], "tlc_neighbour_pairs_in_reach": v[2],
                                                      "tlc_overlap_ranges_compared_with_Merge": v[3], "tlc_neighbours_with_range_drift": v[4]})
     if not demo:
         return
